@@ -126,45 +126,58 @@ theorem MemInv.stable {c : Ctx} {l : LEnv} {m m' : List Int} (h : MemInv c l m)
     obtain ⟨slot, h1, h2, h3⟩ := h.2.2 n hn
     exact ⟨slot, h1, h2, by rw [ha.1 slot h2]; exact h3⟩
 
-def Runs (env : Env) (code : List Instr) (frag : List Instr) (c : Ctx) (l : LEnv) (vs : List Int) : Prop :=
+def Runs (env : Env) (code : List Instr) (frag : List Instr) (c : Ctx) (l : LEnv) (pure : Bool) (vs : List Int) : Prop :=
   ∀ pc st mem its, CodeAt code pc frag → MemInv c l mem → mem.length = 20 →
     ∃ mem' ext, Steps env code ⟨pc, st, mem, its⟩ ⟨pc + frag.length, vs ++ st, mem', its ++ ext⟩ ∧
-      Agree (4 * c.vars.length) mem' mem
+      Agree (4 * c.vars.length) mem' mem ∧ (pure = true → mem' = mem ∧ ext = [])
 
-theorem Runs.nil (env : Env) (code : List Instr) (c : Ctx) (l : LEnv) : Runs env code [] c l [] := by
-  intro pc st mem its _ _ _
-  exact ⟨mem, [], by simpa using Steps.refl env code _, Agree.refl _ _⟩
-
-theorem Runs.seq {env : Env} {code f1 f2 : List Instr} {c : Ctx} {l : LEnv} {v1 v2 : List Int}
-    (h1 : Runs env code f1 c l v1) (h2 : Runs env code f2 c l v2) : Runs env code (f1 ++ f2) c l (v2 ++ v1) := by
+theorem Runs.weaken {env : Env} {code f : List Instr} {c : Ctx} {l : LEnv} {pure : Bool} {vs : List Int}
+    (h : Runs env code f c l true vs) : Runs env code f c l pure vs := by
   intro pc st mem its hc hP hlen
-  obtain ⟨m1, e1, s1, a1⟩ := h1 pc st mem its hc.left hP hlen
-  obtain ⟨m2, e2, s2, a2⟩ := h2 (pc + f1.length) (v1 ++ st) m1 (its ++ e1) hc.right (hP.stable a1) (a1.2.trans hlen)
-  refine ⟨m2, e1 ++ e2, ?_, a2.trans a1⟩
-  have := Steps.trans s1 s2
-  simpa [Nat.add_assoc] using this
+  obtain ⟨m, e, s, a, hp⟩ := h pc st mem its hc hP hlen
+  obtain ⟨rfl, rfl⟩ := hp rfl
+  exact ⟨m, [], s, a, fun _ => ⟨rfl, rfl⟩⟩
 
-theorem Runs.congr {env : Env} {code f f' : List Instr} {c : Ctx} {l : LEnv} {vs : List Int}
-    (h : f = f') (hr : Runs env code f c l vs) : Runs env code f' c l vs := h ▸ hr
+theorem Runs.nil (env : Env) (code : List Instr) (c : Ctx) (l : LEnv) (pure : Bool) : Runs env code [] c l pure [] := by
+  intro pc st mem its _ _ _
+  exact ⟨mem, [], by simpa using Steps.refl env code _, Agree.refl _ _, fun _ => ⟨rfl, rfl⟩⟩
 
-theorem Runs.val1 {env : Env} {code f : List Instr} {c : Ctx} {l : LEnv} {r r' : Int}
-    (h : r = r') (hr : Runs env code f c l [r]) : Runs env code f c l [r'] := h ▸ hr
+theorem Runs.seq {env : Env} {code f1 f2 : List Instr} {c : Ctx} {l : LEnv} {pure : Bool} {v1 v2 : List Int}
+    (h1 : Runs env code f1 c l pure v1) (h2 : Runs env code f2 c l pure v2) :
+    Runs env code (f1 ++ f2) c l pure (v2 ++ v1) := by
+  intro pc st mem its hc hP hlen
+  obtain ⟨m1, e1, s1, a1, p1⟩ := h1 pc st mem its hc.left hP hlen
+  obtain ⟨m2, e2, s2, a2, p2⟩ := h2 (pc + f1.length) (v1 ++ st) m1 (its ++ e1) hc.right (hP.stable a1) (a1.2.trans hlen)
+  refine ⟨m2, e1 ++ e2, ?_, a2.trans a1, ?_⟩
+  · have := Steps.trans s1 s2
+    simpa [Nat.add_assoc] using this
+  · intro hp
+    obtain ⟨rfl, rfl⟩ := p1 hp
+    obtain ⟨rfl, rfl⟩ := p2 hp
+    exact ⟨rfl, rfl⟩
+
+theorem Runs.congr {env : Env} {code f f' : List Instr} {c : Ctx} {l : LEnv} {pure : Bool} {vs : List Int}
+    (h : f = f') (hr : Runs env code f c l pure vs) : Runs env code f' c l pure vs := h ▸ hr
+
+theorem Runs.val1 {env : Env} {code f : List Instr} {c : Ctx} {l : LEnv} {pure : Bool} {r r' : Int}
+    (h : r = r') (hr : Runs env code f c l pure [r]) : Runs env code f c l pure [r'] := h ▸ hr
 
 /-- an instruction that only pushes a word determined by the loop memory -/
-theorem Runs.push1 {env : Env} {code : List Instr} {c : Ctx} {l : LEnv} (i : Instr) (v : Int)
+theorem Runs.push1 {env : Env} {code : List Instr} {c : Ctx} {l : LEnv} {pure : Bool} (i : Instr) (v : Int)
     (h : ∀ pc st mem its, MemInv c l mem → step env i ⟨pc, st, mem, its⟩ = some ⟨pc + 1, v :: st, mem, its⟩) :
-    Runs env code [i] c l [v] := by
+    Runs env code [i] c l pure [v] := by
   intro pc st mem its hc hP _
-  exact ⟨mem, [], Steps.one (by simpa using hc.head) (by simpa using h pc st mem its hP), Agree.refl _ _⟩
+  exact ⟨mem, [], Steps.one (by simpa using hc.head) (by simpa using h pc st mem its hP), Agree.refl _ _,
+    fun _ => ⟨rfl, rfl⟩⟩
 
 /-- an instruction that replaces the words produced by `f` by one word -/
-theorem Runs.op {env : Env} {code f : List Instr} {c : Ctx} {l : LEnv} (i : Instr) (args : List Int) (r : Int)
-    (hf : Runs env code f c l args)
+theorem Runs.op {env : Env} {code f : List Instr} {c : Ctx} {l : LEnv} {pure : Bool} (i : Instr) (args : List Int) (r : Int)
+    (hf : Runs env code f c l pure args)
     (h : ∀ pc st mem its, step env i ⟨pc, args ++ st, mem, its⟩ = some ⟨pc + 1, r :: st, mem, its⟩) :
-    Runs env code (f ++ [i]) c l [r] := by
+    Runs env code (f ++ [i]) c l pure [r] := by
   intro pc st mem its hc hP hlen
-  obtain ⟨m1, e1, s1, a1⟩ := hf pc st mem its hc.left hP hlen
-  refine ⟨m1, e1, ?_, a1⟩
+  obtain ⟨m1, e1, s1, a1, p1⟩ := hf pc st mem its hc.left hP hlen
+  refine ⟨m1, e1, ?_, a1, p1⟩
   have s2 := Steps.one (s := ⟨pc + f.length, args ++ st, m1, its ++ e1⟩) (by simpa using hc.right.head) (h _ st m1 _)
   have := Steps.trans s1 s2
   simpa [Nat.add_assoc] using this
